@@ -79,14 +79,15 @@ Theorem c09_query_by_state_sees_merged x now S sts :
     forall s, s ∈ l <-> exists k e, st S !! k = Some e /\ m_sil e = s /\ sil_state s now ∈ sts.
 Proof. exact (query_state_exact x now S sts). Qed.
 
-(* F1 (DESIGN section 8) as a fact of the unchanged code: a merge that REPLACES a known id touches neither the
-   matcher index, nor the version index, nor the version counter. Query by id / by state still sees the new
-   content (theorems above: they read st); what does NOT see it is a QSince scan from the current version —
-   the example below — which is what the Silencer cache (C02) relies on. *)
-Theorem c09_replace_does_not_bump_version x now ov S n e p :
-  st S !! m_id e = Some p ->
-  let S' := fst (merge_one x now ov (S, n) e) in mi S' = mi S /\ vi S' = vi S /\ ver S' = ver S.
-Proof. exact (merge_one_replace_no_index x now ov S n e p). Qed.
+(* F1 (DESIGN section 8). On the pinned code a merge that REPLACED a known id touched neither the version index nor the
+   version counter: Query by id / by state still saw the new content (they read st — theorems above), but a QSince
+   scan from the current version did not, which is what the Silencer cache (C02) relies on. Repaired in /repo by
+   ca83c00 (C02): a replacing merge now gives the id the next version and moves it to the tail of the version
+   index. The model follows the repaired code; the bookkeeping invariant is preserved (c09_merged_is_effective). *)
+Theorem c09_replace_reindexes x now ov S n e p :
+  st S !! m_id e = Some p -> m_upd p < m_upd e -> now <= m_exp e ->
+  fst (merge_one x now ov (S, n) e) = reindex_silence (with_st S (<[m_id e := e]> (st S))) (m_id e).
+Proof. exact (merge_one_replace_reindexes x now ov S n e p). Qed.
 
 (* ---- non-vacuity and recorded examples ---- *)
 Definition ex_x : ext := mkExt (fun _ _ => false) (fun _ => true) (fun _ => false) (fun _ => true) (fun _ => true).
@@ -101,13 +102,12 @@ Example c09_convergence_nonvacuous :
   length (offered_run ex_c ex_x empty_store ex_h2) = 2%nat.
 Proof. vm_compute. repeat split; reflexivity. Qed.
 
-(* F1 witness: v1 (ends at 200) expires; a cache that looked at version 1 at t = 300 sees nothing to re-check;
-   v2 (newer UpdatedAt, ends at 900) replaces v1 at t = 500: Query by state reports it active, the version is
-   still 1 and QSince 1 returns nothing. *)
-Example c09_replace_invisible_to_since :
+(* F1 witness, now repaired: v1 (ends at 200) expires; v2 (newer UpdatedAt, ends at 900) replaces it at t = 500:
+   Query by state reports it active, and a QSince scan from version 1 (what a cache saw at t = 300) finds it. *)
+Example c09_replace_visible_to_since :
   let S := run_store ex_c ex_x empty_store ex_h1 in
-  query_op ex_x 600 S [QState [SActive]] = RQuery [m_sil (decode_rec v2)] 1 /\
-  query_op ex_x 600 S [QSince 1; QState [SActive]] = RQuery [] 1.
+  query_op ex_x 600 S [QState [SActive]] = RQuery [m_sil (decode_rec v2)] 2 /\
+  query_op ex_x 600 S [QSince 1; QState [SActive]] = RQuery [m_sil (decode_rec v2)] 2.
 Proof. vm_compute. split; reflexivity. Qed.
 
 (* I2: a version delivered to one instance only after it expired there legitimately diverges (no tombstones) *)
